@@ -62,12 +62,12 @@ OPS_BY_PROP = {
     'C01': MIX_OPS * 3 + BACKGROUND_MUTATORS + ['copy', 'proxy', 'flow_proxy', 'view', 'set_phases',
                                                  'set_phase', 'restart', 'churn', 'link_with', 'unlink'],
     'C10': ['read_flow'] * 6 + ['set_flow'] * 4 + ['churn'] * 2 + ['mix_from', 'copy', 'restart',
-                                                                  'set_phases', 'bad_key', 'view'],
+                                                                  'set_phases', 'bad_key', 'view', 'bad_alias'],
     'C11': ['move_phase', 'read_flow', 'read_total', 'set_flow', 'set_flow', 'set_total', 'set_T', 'set_P', 'set_phase',
             'set_phases', 'link_with', 'unlink', 'proxy', 'flow_proxy', 'copy_like', 'copy', 'restart',
             'reset_cache', 'view', 'scale', 'mix_from', 'bad_units', 'churn', 'reduce_phases', 'empty',
-            'split_to', 'check_views', 'check_views'],
-    'C02': ['set_energy'] * 5 + ['mix_energy'] * 5 + ['separate_energy'] * 2 + ['set_T', 'set_T', 'set_P', 'set_flow',
+            'split_to', 'check_views', 'check_views', 'bad_link'],
+    'C02': ['set_energy'] * 5 + ['mix_energy'] * 5 + ['separate_energy'] * 2 + ['bad_energy'] + ['set_T', 'set_T', 'set_P', 'set_flow',
             'set_flow', 'scale', 'read_prop', 'read_prop', 'proxy', 'copy', 'restart', 'link_with', 'unlink',
             'flow_proxy', 'reset_cache', 'set_phase'],
     'C12': ['move_phase'] + ['set_phases'] * 4 + ['reduce_phases', 'as_stream', 'touch_solver', 'touch_solver', 'view_write',
@@ -78,7 +78,7 @@ OPS_BY_PROP = {
             'proxy', 'flow_proxy', 'flow_proxy', 'link_with', 'link_with', 'link_with', 'unlink', 'unlink', 'view',
             'restart', 'pickle_obj', 'set_flow', 'set_flow', 'set_flow', 'set_T', 'set_P', 'set_phase', 'scale',
             'empty', 'set_total', 'mix_from', 'split_to', 'separate_out', 'read_prop', 'read_flow', 'save_data',
-            'restore_data', 'set_phases', 'churn'],
+            'restore_data', 'set_phases', 'churn', 'bad_link'],
     'C14': ['read_prop'] * 8 + BACKGROUND_MUTATORS * 2 + ['move_phase', 'move_phase', 'set_phase', 'set_phases', 'mix_from', 'split_to',
             'copy_like', 'link_with', 'unlink', 'proxy', 'flow_proxy', 'view', 'restart', 'reset_cache',
             'reduce_phases', 'copy', 'separate_out', 'copy_flow'],
@@ -99,13 +99,18 @@ def make_cfg(rng, prop, tier):
     streams = []
     energy = prop == 'C02'
     for i in range(n_streams):
-        pkg = rng.choice(['A', 'A', 'A2', 'A2', 'B', 'C'] if prop == 'C10' else ['A', 'A', 'A', 'B', 'C'])
+        pkg = rng.choice(['A', 'A', 'A2', 'A2', 'B', 'C'] if prop == 'C10' else
+                         ['A', 'A', 'A', 'B', 'C', 'E', 'E'] if energy else ['A', 'A', 'A', 'B', 'C'])
         kind = rng.choice(['single', 'single', 'multi'])
+        if pkg in universe.EOS_PACKAGES:
+            kind = 'single'
         spec = {'name': f's{i}', 'pkg': pkg, 'kind': kind,
                 'T': rng.choice(T_ALPHABET), 'P': rng.choice(P_ALPHABET)}
         n = len(universe.PACKAGES[pkg][0])
         if kind == 'single':
             spec['phase'] = rng.choice(['l', 'l', 'g']) if energy else rng.choice(['l', 'l', 'g', 's', 'L', 'S'])
+            if pkg in universe.EOS_PACKAGES:
+                spec['phase'] = 'g'
             spec['flows'] = [rng.choice(FLOW_ALPHABET) for _ in range(n)]
             if energy and not any(spec['flows']):
                 spec['flows'][0] = 1.0
@@ -208,6 +213,7 @@ class StreamWorld(BaseWorld):
         self.iclass = {}      # streams that are one and the same indexer object (a proxy and its original)
         self.vgroups = {}     # (flow group of the parent, phase) -> flow group of that phase row
         self.vparent = {}     # row group id -> (parent group id, phase)
+        self.locked_pgroups = set()   # phase groups that contain a per-phase view (phase cannot be assigned)
         self.ngroups = 0
         for spec in cfg['streams']:
             self._create(spec)
@@ -606,8 +612,11 @@ class StreamWorld(BaseWorld):
         if kind == 'model_error':
             return {'kind': kind, 'site': r.choice(FAULT_SITES.get(op, ['H', 'Cn', 'V'])),
                     'nth': r.randint(1, 4), 'exc': r.choice(['RuntimeError', 'ValueError', 'FloatingPointError'])}
-        return {'kind': kind, 'site': r.choice(['aitken', 'aitken_secant']), 'nth': 1,
-                'exc': r.choice(['RuntimeError', 'InfeasibleRegion'])}
+        f = {'kind': kind, 'site': r.choice(['aitken', 'aitken_secant']), 'nth': 1,
+             'exc': r.choice(['RuntimeError', 'InfeasibleRegion'])}
+        if r.random() < 0.4:
+            f['every'] = True       # the solver keeps failing for the whole operation (retries fail too)
+        return f
 
     # ---- generators of each op kind (arguments only; 'op' is filled by gen) ----
     def rand_flows(self, r, n, sparsity=0.4):
@@ -791,6 +800,28 @@ class StreamWorld(BaseWorld):
     def gen_unlink(self, r):
         return {'stream': self.names(r)[0]}
 
+    def gen_bad_link(self, r):
+        """F7 natural error: a single-phase and a multi-phase stream cannot be linked"""
+        a, b = self.names(r, kind='single'), self.names(r, kind='multi')
+        if not a or not b:
+            return None
+        a, b = a[0], b[0]
+        if r.random() < 0.5:
+            a, b = b, a
+        return {'stream': a, 'other': b, 'flow': r.random() < 0.7, 'phase': r.random() < 0.7,
+                'TP': r.random() < 0.8}
+
+    def gen_bad_alias(self, r):
+        """F7 natural error: a name already taken by another chemical cannot become an alias"""
+        nm = self.names(r)[0]
+        pk = self.pk(nm)
+        taken = sorted(k for k in pk.names)
+        name = r.choice(taken)
+        others = [i for i in pk.ids if pk.pos[i] != pk.names[name]]
+        if not others:
+            return None
+        return {'stream': nm, 'id': r.choice(others), 'alias': name}
+
     def gen_view_write(self, r):
         nm = self.names(r, kind='multi')
         if not nm:
@@ -829,6 +860,14 @@ class StreamWorld(BaseWorld):
             return None
         return {'stream': nm[0], 'what': r.choice(['H', 'H', 'h', 'S']), 'current': r.random() < 0.25,
                 'T_target': r.choice([265.0, 290.0, 305.5, 330.0, 355.25, 380.0, 410.0, 440.0, 470.0])}
+
+    def gen_bad_energy(self, r):
+        """F7 natural error: an energy no temperature can reach; the caller catches whatever happens and
+        puts the stream back - later operations on any stream must be unaffected"""
+        nm = self.names(r, kind='single', nonempty=True)
+        if not nm:
+            return None
+        return {'stream': nm[0], 'what': r.choice(['S', 'S', 'H']), 'sign': r.choice([1.0, 1.0, -1.0])}
 
     def gen_mix_energy(self, r):
         recv = self.names(r)[0]
@@ -1046,9 +1085,17 @@ class StreamWorld(BaseWorld):
         """molar volume models exist for every chemical of the package in the phases concerned"""
         return True
 
+    def model_locked(self, name):
+        """the harness' own account: a per-phase view, a proxy of one, or a stream whose phase was linked to one"""
+        return self.meta[name]['origin'] == 'view' or self.pgroup.get(name) in self.locked_pgroups
+
     def is_view_locked(self, name):
-        if self.meta[name]['origin'] == 'view':
+        if self.model_locked(name):
             return True
+        if self.prop == 'C13':
+            # sharing is the property: only the model decides, so that a copy which wrongly inherits a
+            # view's locked phase is still exercised (and fails copy_like / phase assignment)
+            return False
         # a stream whose phase was linked to a per-phase view shares the view's LOCKED phase container
         s = self.streams.get(name)
         try:
@@ -1066,6 +1113,8 @@ class StreamWorld(BaseWorld):
         return True
 
     def pre_set_phase(self, ev):
+        if self.pkg_of[ev['stream']] in universe.EOS_PACKAGES and ev.get('phase') != 'g':
+            return False
         return not self.is_view_locked(ev['stream'])
 
     def pre_set_phases(self, ev):
@@ -1139,6 +1188,18 @@ class StreamWorld(BaseWorld):
             return tuple(self.streams[a].phases) == tuple(self.streams[b].phases)
         return True
 
+    def pre_bad_link(self, ev):
+        a, b = ev['stream'], ev['other']
+        if a == b or self.is_view_locked(a) or self.is_view_locked(b):
+            return False
+        if self.is_multi(a) == self.is_multi(b):
+            return False
+        return self.pkg_of[a] == self.pkg_of[b]
+
+    def pre_bad_alias(self, ev):
+        pk = self.pk(ev['stream'])
+        return ev['alias'] in pk.names and ev['id'] in pk.pos and pk.pos[ev['id']] != pk.names[ev['alias']]
+
     def pre_view_write(self, ev):
         n = ev['stream']
         return self.is_multi(n) and ev['phase'] in self.streams[n].phases and ev['chem'] in self.pk(n).pos
@@ -1159,6 +1220,8 @@ class StreamWorld(BaseWorld):
         p = self.project(name)
         if not all(ph in ('l', 'g') for ph in p.phases):
             return False
+        if p.pkg in universe.EOS_PACKAGES and (p.kind != 'single' or tuple(p.phases) != ('g',)):
+            return False        # the equation-of-state package holds gases only
         if not (250.0 <= p.T <= 500.0 and 1e4 <= p.P <= 1e7):
             return False
         return all((row >= 0).all() for row in p.rows.values())
@@ -1166,6 +1229,11 @@ class StreamWorld(BaseWorld):
     def pre_set_energy(self, ev):
         n = ev['stream']
         return self.energy_ok(n) and not self.streams[n].isempty()
+
+    def pre_bad_energy(self, ev):
+        n = ev['stream']
+        return (not self.is_multi(n) and self.energy_ok(n) and not self.streams[n].isempty()
+                and not self.is_view_locked(n))
 
     def pre_mix_energy(self, ev):
         if not self.pre_mix_from({'stream': ev['stream'], 'inlets': ev['inlets']}):
@@ -2172,6 +2240,22 @@ class StreamWorld(BaseWorld):
             if not self.same_proj(pa, pb):
                 self.fail('copy-differs', f'{name}.copy() differs from the original',
                           {'original': pa.to_json(), 'copy': pb.to_json()})
+            if pb.kind == 'single':
+                # a copy is an ordinary stream of its own: its phase can be re-assigned without touching the original
+                c = r[1]
+                old = c.phase
+                other = 'g' if old != 'g' else 'l'
+                with faults.disarmed():
+                    try:
+                        c.phase = other
+                        got = c.phase
+                        c.phase = old
+                    except Exception as e:
+                        self.fail('copy-not-independent', f'the phase of {name}.copy() cannot be assigned: '
+                                  f'{type(e).__name__}: {e}')
+                if got != other or self.project(name).phases != pa.phases:
+                    self.fail('copy-not-independent', f'assigning the phase of {name}.copy() gave {got!r} '
+                              f'(original now {self.project(name).phases})')
         return 'ok'
 
     def do_proxy(self, ev):
@@ -2203,6 +2287,7 @@ class StreamWorld(BaseWorld):
             return self.unexpected(ev, r, 'view')
         self.add_stream(ev['new'], r[1], self.pkg_of[name], 'view', name, shares_flow=True, shares_tp=True,
                         view_of=[name, ev['phase']])
+        self.locked_pgroups.add(self.pgroup[ev['new']])
         return 'ok'
 
     def do_copy_like(self, ev):
@@ -2256,6 +2341,43 @@ class StreamWorld(BaseWorld):
             if m.get('view_of') and m['view_of'][0] == a and not m.get('detached') and n in self.streams:
                 self.fgroup[n] = self.view_group(a, m['view_of'][1])
                 self.tgroup[n] = self.tgroup[a]
+
+    def do_bad_link(self, ev):
+        """A link that has to be refused (different stream classes) must leave nothing shared."""
+        a, b = ev['stream'], ev['other']
+        sa, sb = self.streams[a], self.streams[b]
+        r = self.call(ev, lambda: sa.link_with(sb, flow=ev['flow'], phase=ev['phase'], TP=ev['TP']))
+        self.touch(a, b)
+        if r[0] == 'exc':
+            self.stats['bad_link_rejected'] += 1
+            return 'exc-rejected'
+        # accepted: whatever was selected is now documented to be shared
+        self.stats['bad_link_accepted'] += 1
+        if ev['flow']:
+            self.fgroup[a] = self.fgroup[b]
+        if ev['TP']:
+            self.tgroup[a] = self.tgroup[b]
+        self.views_follow(a)
+        return 'ok'
+
+    def do_bad_alias(self, ev):
+        """A refused set_alias must not change what any name resolves to (checked by all later lookups)."""
+        pk = self.pk(ev['stream'])
+        r = self.call(ev, lambda: pk.compiled.set_alias(ev['id'], ev['alias']))
+        if r[0] == 'ok':
+            self.fail('taken-alias-accepted', f'set_alias({ev["id"]!r}, {ev["alias"]!r}) was accepted although '
+                      f'{ev["alias"]!r} already names another chemical')
+        self.stats['bad_alias_rejected'] += 1
+        s = self.streams[ev['stream']]
+        proj = self.project(ev['stream'])
+        k = pk.names[ev['alias']]
+        r2 = self.call(ev, lambda: s.imol[ev['alias']] if proj.kind == 'single' else s.imol[proj.phases[0], ev['alias']])
+        if r2[0] == 'ok':
+            want = proj.rows[proj.phases[0]][k]
+            if not close(np.array([float(r2[1])]), np.array([want])):
+                self.fail('name-repointed', f'after the refused set_alias({ev["id"]!r}, {ev["alias"]!r}) the name '
+                          f'{ev["alias"]!r} reads {float(r2[1])!r}, the flow at its position {k} is {want!r}')
+        return 'exc-rejected'
 
     def do_unlink(self, ev):
         a = ev['stream']
@@ -2522,6 +2644,8 @@ class StreamWorld(BaseWorld):
         if not (250.0 <= after.T <= 500.0) or not all(ph in ('l', 'g') for ph in after.phases):
             self.stats['left_domain'] += 1
             return 'left-domain'
+        if self.eos_relabelled(n, after):
+            return 'left-domain'
         if not close(after.total(), before.total()):
             self.fail('energy-changed-flows', f'{n}.{what} = ... changed the flows')
         C = self.C_indep(n, after)
@@ -2553,6 +2677,44 @@ class StreamWorld(BaseWorld):
                       {'event': ev})
         return ['ok', fl(after.T)]
 
+    def do_bad_energy(self, ev):
+        n = ev['stream']
+        s = self.streams[n]
+        before = self.project(n)
+        C = max(abs(self.C_indep(n, before)), 1.0)
+        value = ev['sign'] * 1e9 * C
+        ph0 = before.phases[0]
+        with np.errstate(all='ignore'):
+            r = self.call(ev, lambda: setattr(s, ev['what'], value))
+        self.touch(n)
+        self.stats['bad_energy:' + ('raised' if r[0] == 'exc' else 'returned')] += 1
+        # the caller's recovery
+        with faults.disarmed():
+            if s.phase != ph0:
+                s.phase = ph0
+            s.T = before.T
+            s.P = before.P
+        return 'exc-rejected' if r[0] == 'exc' else 'accepted'
+
+    def eos_relabelled(self, name, after):
+        """The H/S setters' recovery branch (reached through an injected solver fault) relabels a gas of the
+        equation-of-state package as liquid: outside that package's domain (gases only).  The caller puts it
+        back to a gas at a temperature inside the window; the operation is not judged."""
+        if after.pkg not in universe.EOS_PACKAGES or (after.kind == 'single' and tuple(after.phases) == ('g',)):
+            return False
+        self.stats['left_domain_eos_liquid'] += 1
+        s = self.streams[name]
+        with faults.disarmed():
+            try:
+                if after.kind == 'single':
+                    s.phase = 'g'
+                if not (250.0 <= s.T <= 500.0):
+                    s.T = 300.0
+            except Exception:
+                pass
+        self.touch(name)
+        return True
+
     def note_calibration(self, key, resid, unit):
         if unit > 0:
             k = 'cal:' + key
@@ -2578,6 +2740,8 @@ class StreamWorld(BaseWorld):
         if self.prop != 'C02':
             return 'ok'
         after = self.project(recv)
+        if self.eos_relabelled(recv, after):
+            return 'left-domain'
         outside = not (250.0 <= after.T <= 500.0) or not all(ph in ('l', 'g') for ph in after.phases)
         if outside:
             # the result left the stated window (too much / too little heat for the receiver's phase).  The
@@ -2630,6 +2794,8 @@ class StreamWorld(BaseWorld):
         if self.prop != 'C02':
             return 'ok'
         after = self.project(a)
+        if self.eos_relabelled(a, after):
+            return 'left-domain'
         if not (250.0 <= after.T <= 500.0) or not all(ph in ('l', 'g') for ph in after.phases):
             self.stats['left_domain'] += 1
             return 'left-domain'
